@@ -64,6 +64,17 @@ Theorem c03_checker_sound : forall s, w3c_tracestate_b s = true -> W3C_tracestat
 Proof. exact w3c_tracestate_b_sound. Qed.
 Print Assumptions c03_checker_sound.
 
+(** TraceIDFromHex / SpanIDFromHex accept exactly 2n lower-case hex digits that are not all
+    '0', and return the n bytes whose lower-case hex rendering is the input. *)
+Theorem c03_id_from_hex : forall n h,
+  match id_from_hex n h with
+  | Some b => length b = n /\ Forall (fun x => x < 256) b /\ all_zero b = false /\
+              hex_encode b = h /\ forallb lchex h = true /\ nonzero_hex h = true
+  | None => length h <> (2 * n)%nat \/ forallb lchex h = false \/ nonzero_hex h = false
+  end.
+Proof. exact id_from_hex_spec. Qed.
+Print Assumptions c03_id_from_hex.
+
 (** Non-vacuity: concrete states meeting the hypotheses. *)
 Definition ex_ts : list member := [(str "rojo", str "00f067aa0ba902b7"); (str "t1@sys", str "a b")].
 Definition ex_sc : spanctx :=
@@ -79,6 +90,10 @@ Example ex_extract :
                      (str "rojo=00f067aa0ba902b7, t1@sys=a b ,,") = Some sc
              /\ tstate sc = ex_ts.
 Proof. eexists. split; vm_compute; reflexivity. Qed.
+Example ex_id_from_hex :
+  id_from_hex 8 (str "00f067aa0ba902b7") = Some (hx "00f067aa0ba902b7") /\
+  id_from_hex 8 (str "00F067aa0ba902b7") = None /\ id_from_hex 8 (str "0000000000000000") = None.
+Proof. vm_compute. auto. Qed.
 Example ex_insert_overflow :
   let l := map (fun i => (str "k" ++ [97 + i], str "v")) (map N.of_nat (seq 0 25))
            ++ map (fun i => (str "j" ++ [97 + i], str "v")) (map N.of_nat (seq 0 7)) in
